@@ -102,3 +102,12 @@ Print Assumptions get_identifiers_spec.
 Print Assumptions get_parameters_spec.
 Print Assumptions get_cases_wellformed.
 Print Assumptions comparison_operands.
+
+(* ---- every alphabetic word of the keyword dictionaries is a function name in front of "(" (finite family over the
+        regenerated dictionaries and rules, through the whole pipeline), except the six the lexer keeps keywords ------ *)
+From SqlModel.Inst Require C13FnWords.
+Theorem C13_fnwords_fin :
+  forallb C13FnWords.fn_word_ok (filter C13FnWords.is_alpha_word (WordsDefs.all_words KwTabs.kws)) = true.
+Proof. exact C13FnWords.C13_fnwords_fin. Qed.
+Definition C13_fnword_member := C13FnWords.fn_word_member.
+Print Assumptions C13_fnwords_fin.
